@@ -2,13 +2,13 @@
 import typedvrl as tv
 
 ID = "C01"
-THEOREMS = ['C01_early_return_refuted', 'C01_closure_effect_refuted', 'C01_scope_leak_refuted', 'C01_negidx_insert_refuted', 'C01_remove_shift_refuted']
+THEOREMS = ['C01_early_return_refuted', 'C01_closure_effect_refuted', 'C01_scope_leak_refuted', 'C01_negidx_insert_refuted', 'C01_remove_shift_refuted', 'C01_pure_sound_partial', 'C01_statement_sound_partial', 'C01_straightline_sound_partial', 'C01_fragment_nonvacuous']
 MANIFEST = {
     "level": "proof",
     "technique": "Coq proof on a hand model of Expression::type_info (Model/TypeInfo.v, kinds of Model/Kind.v) against the "
                  "Core-VRL evaluator + differential correspondence on compiled programs (final_type_info, runs)",
-    "text": "",
-    "note": "",
+    "text": "Closed Coq theorems: (1) every effect-free expression (literals, variables, event/metadata/variable/expression queries inside C19's get_ok, arrays, objects, groups, ==, !=, ! on booleans, exists) typed in a type state the run-time state conforms to evaluates to a member of its inferred kind and changes nothing, for every function table; (2) a statement (such an expression or its assignment to a variable, a path below a known variable or an event/metadata path inside C19's ins_ok) re-establishes conformance with the type state after it; (3) for every straight-line program of such statements and every conforming event and metadata the run succeeds, its value is in the program's reported kind and the final event/metadata are in the kinds of Program::final_type_info. The model is a Gallina transcription of every Expression::type_info / resolve_constant impl of the Core-VRL constructs (Model/TypeInfo.v over the Kind model of C19) tied to the code by running each generated program through the compiler and runtime (harness `typed`: final_type_info kinds, fallibility, returns, run outcome, final event/metadata, Rust-side membership) and through type_info/eval in Coq. Outside the fragment the property is FALSE on the unchanged tree: 17 classes (early return vs final kinds, closure effects dropped, scope leak, `||` with undefined lhs, LocalEnv::merge of rhs-only variables, `??`/`ok,err=` partial lhs, Div dropping rhs effects, del on variable paths, and the C19 kind defects reached from programs) are refuted by vm_compute witnesses replayed on the implementation and recorded as known findings; the oracle (conforming input => result/event/metadata are members of the reported kinds) runs on every generated program.",
+    "note": "Partial: soundness is proved for the straight-line fragment only (no if/else, no short-circuit operators, no arithmetic, no calls, no closures, no del, no blocks) - those constructs are covered by correspondence + oracle search only, and the full statement is refuted. Hypotheses of the generic theorems: == and != of the operator table return booleans (discharged for the instantiated table). Trusted: Coq kernel + vm_compute, the hand-written models (Model/TypeInfo.v, Model/Kind*.v, Model/Eval.v, tied by correspondence), the Core-VRL printer/AST codec, harness typed.rs, Python generator. No axioms.",
     "design_ref": "DESIGN.md section 5 C01",
 }
 
